@@ -100,6 +100,35 @@ def _work(job):
                     "props": o.props, "clause": o.clause, "path": list(o.path), "verdict": verdict,
                     "backend": backend, "secs": round(secs, 4), "detail": detail, "size": size,
                     "outside_known": excl, "extra": {k: v for k, v in o.extra.items() if k in ("mutations", "raised")}})
+    # bounded-refutation pass: obligations the solvers left `unknown` (quantified invariants) are
+    # re-generated with index quantifiers expanded for sequences of length <= N; a model there is a
+    # genuine counterexample (DESIGN 2.6); `unsat` there proves nothing and the verdict stays unknown
+    if any(o["verdict"] == "unknown" for o in obs) and fr.status == "ok":
+        for N in (2, 3):
+            todo = {(o["oid"], tuple(o["path"])): o for o in obs if o["verdict"] == "unknown"}
+            if not todo:
+                break
+            w.bound = N
+            try:
+                fr2 = run_contract(w, con, tier) if kind == "contract" else run_lemma(w, lem, tier)
+            except Exception:  # noqa
+                fr2 = None
+            finally:
+                w.bound = None
+            if fr2 is None or fr2.status != "ok":
+                break
+            for o2 in fr2.obligations:
+                # paths may differ in bounded mode (no quantifier forks), match by id
+                cands = [o for (oid, _), o in todo.items() if oid == o2.oid and o["verdict"] == "unknown"]
+                if not cands:
+                    continue
+                text = to_smt2(w.axioms_for(o2.pc + [o2.goal]), o2.pc, o2.goal)
+                _, v, be, secs, _ = solve_text((0, text, 10000, 0, False))
+                if v == "sat":
+                    for o in cands:
+                        o["verdict"], o["backend"], o["bounded_model_len"] = "sat", be + "(bounded N=%d)" % N, N
+                        o["secs"] = round(o["secs"] + secs, 4)
+                        o["path"] = list(o2.path)
     src = fr.fsrc
     return {"kind": kind, "key": key, "status": fr.status, "reason": fr.reason, "paths": fr.paths,
             "cases": fr.cases, "gen_s": round(fr.gen_s, 3), "wall_s": round(time.time() - t0, 3),
